@@ -423,9 +423,11 @@ public:
 	{
 		if (length() != b.length())
 			return false;
-		Enumerator e1(this->all()), e2(b.all());
-		for (; e1; ++e1, ++e2)
-			if (~e1 != ~e2 || *e1 != *e2) return false;
+		for (Enumerator e1(this->all()); e1; ++e1) // by lookup: enumeration order depends on insertion order and table size
+		{
+			const T* p = b.find(~e1);
+			if (!p || *e1 != *p) return false;
+		}
 		return true;
 	}
 
